@@ -15,6 +15,8 @@ namespace SoyVerif.Lemmas.LexPrint
 open SoyVerif SoyVerif.Model SoyVerif.Model.Lex SoyVerif.Model.PrintTokens
 open SoyVerif.Lemmas.ParserAdj SoyVerif.Lemmas.ParserToks
 
+variable {tg : Int}
+
 /-- `|` -/
 def tPipe : Tk := ⟨.tPipe, [124]⟩
 
@@ -66,17 +68,17 @@ theorem tokOk_ne {t : Tk} {rest : Bytes} (h : TokOk t rest) : t.val ≠ [] := by
     intro e; subst e; simp [strOk] at hs
 
 /-- the state after the token `t` that started at `p` -/
-def After (inp : Array UInt8) (p : Nat) (w : Int) (its : Array Item) (t : Tk) : Lexer :=
-  L inp (p + t.val.length) (p + t.val.length) w (itemOf t (p + t.val.length)) (its.push (itemOf t (p + t.val.length)))
+def After (tg : Int) (inp : Array UInt8) (p : Nat) (w : Int) (its : Array Item) (t : Tk) : Lexer :=
+  L tg inp (p + t.val.length) (p + t.val.length) w (itemOf t (p + t.val.length)) (its.push (itemOf t (p + t.val.length)))
 
-theorem run_of_step1 {inp p le its t} (h : Step1 inp p le its t) :
-    ∀ w n, ∃ w', run (n + 1) .insideTag (L inp p p w le its) = run n .insideTag (After inp p w' its t) := by
+theorem run_of_step1 {inp p le its t} (h : Step1 tg inp p le its t) :
+    ∀ w n, ∃ w', run (n + 1) .insideTag (L tg inp p p w le its) = run n .insideTag (After tg inp p w' its t) := by
   intro w n
   obtain ⟨w', hw⟩ := h w
   exact ⟨w', run_step hw⟩
 
-theorem run_of_step2 {inp p le its t} (h : Step2 inp p le its t) :
-    ∀ w n, ∃ w', run (n + 2) .insideTag (L inp p p w le its) = run n .insideTag (After inp p w' its t) := by
+theorem run_of_step2 {inp p le its t} (h : Step2 tg inp p le its t) :
+    ∀ w n, ∃ w', run (n + 2) .insideTag (L tg inp p p w le its) = run n .insideTag (After tg inp p w' its t) := by
   intro w n
   obtain ⟨w', s1, l1, h1, h2⟩ := h w
   exact ⟨w', (run_step h1).trans (run_step h2)⟩
@@ -89,7 +91,7 @@ include T
 theorem tok_step {inp : Array UInt8} {p : Nat} {t : Tk} {rest : Bytes} {le : Item} {its : Array Item}
     (h : InpAt inp p (t.val ++ rest)) (hok : TokOk t rest) (hprev : pairOK le.typ t.typ = true) :
     ∃ k, 1 ≤ k ∧ k ≤ 2 ∧ ∀ w n, ∃ w',
-      run (n + k) .insideTag (L inp p p w le its) = run n .insideTag (After inp p w' its t) := by
+      run (n + k) .insideTag (L tg inp p p w le its) = run n .insideTag (After tg inp p w' its t) := by
   cases hok with
   | lp => exact ⟨1, by omega, by omega, run_of_step1 (step_single (s := rest) h .tLeftParen (by simp) T.sym1.1 le its)⟩
   | rp => exact ⟨1, by omega, by omega, run_of_step1 (step_single (s := rest) h .tRightParen (by simp) T.sym1.2.1 le its)⟩
@@ -144,7 +146,7 @@ end
 /-! ### spaces and the end of the input -/
 
 theorem step_space {inp p s} (h : InpAt inp p (32 :: s)) (w le its) :
-    step .insideTag (L inp p p w le its) = some (some .insideTag, L inp (p + 1) (p + 1) 1 le its) := by
+    step .insideTag (L tg inp p p w le its) = some (some .insideTag, L tg inp (p + 1) (p + 1) 1 le its) := by
   simp only [step, lexInsideTag, next_L h (by decide), Option.bind_eq_bind, Option.bind_some]
   simp [isSpaceEOL, isSpace, ignore_L]
 
@@ -157,8 +159,8 @@ theorem errItem_typ : errItem.typ = .tError := rfl
 /-- the end of the input: the only step of the walk that goes through an error exit of the lexer —
     `errorfAt l l.tagStart clsTag` with `tagStart = 0` -/
 theorem step_eof {inp p} (h : InpAt inp p []) (w le its) :
-    ∃ l', step .insideTag (L inp p p w le its) = some (none, l') ∧ l'.items = its.push errItem := by
-  refine ⟨{ L inp p p 0 le its with items := its.push errItem }, ?_, rfl⟩
+    ∃ l', step .insideTag (L 0 inp p p w le its) = some (none, l') ∧ l'.items = its.push errItem := by
+  refine ⟨{ L 0 inp p p 0 le its with items := its.push errItem }, ?_, rfl⟩
   simp only [step, lexInsideTag, next_eof_L h, Option.bind_eq_bind, Option.bind_some]
   simp [isSpaceEOL, isSpace, isEndOfLine, lexInsideTagMid, lexInsideTagRest, eof, errorfAt, L, errItem]
 
@@ -199,7 +201,7 @@ include T
 /-- the machine over a whole piece list -/
 theorem lex_pieces {inp : Array UInt8} : ∀ (ps : List Piece) (p : Nat) (w : Int) (le : Item) (its : Array Item) (F : Nat),
     InpAt inp p (spell ps) → Adj ps [] → chainOK le.typ (typs (unsp ps)) = true → 2 * ps.length + 1 ≤ F →
-    run F .insideTag (L inp p p w le its) = .items (its.toList ++ emitAll p ps)
+    run F .insideTag (L 0 inp p p w le its) = .items (its.toList ++ emitAll p ps)
   | [], p, w, le, its, F, h, _, _, hF => by
     obtain ⟨n, rfl⟩ : ∃ n, F = n + 1 := ⟨F - 1, by omega⟩
     obtain ⟨l', hs, hi⟩ := step_eof (inp := inp) (p := p) (by simpa [spell] using h) w le its
@@ -215,7 +217,7 @@ theorem lex_pieces {inp : Array UInt8} : ∀ (ps : List Piece) (p : Nat) (w : In
     have h' : InpAt inp p (t.val ++ (spell r ++ [])) := by simpa [spell] using h
     have hc' : pairOK le.typ t.typ = true ∧ chainOK t.typ (typs (unsp r)) = true := by
       simpa [unsp, typs, chainOK] using hc
-    obtain ⟨k, hk1, hk2, hrun⟩ := tok_step T h' ha.1 hc'.1 (le := le) (its := its)
+    obtain ⟨k, hk1, hk2, hrun⟩ := tok_step (tg := 0) T h' ha.1 hc'.1 (le := le) (its := its)
     obtain ⟨n, rfl⟩ : ∃ n, F = n + k := ⟨F - k, by simp at hF; omega⟩
     obtain ⟨w', hw⟩ := hrun w n
     rw [hw]
